@@ -182,6 +182,11 @@ package eval
 //@   requires wfP(p) && p != nil && e != nil
 //@   safe idx,slice
 //@   inline 2 1
+//@   # C22: the row recorded for a definition is the row in effect when the `def` evaluator was
+//@   # entered, on every path (ordinary and both endless forms)
+//@   callsite[C22] setDefineMethodT a_defineRow == old(p.ErrorRow)
+//@   callsite[C22] setDefineInfos a_defineRow == old(p.ErrorRow)
+//@   callsite[C22] endlessDefinition a_defineRow == old(p.ErrorRow)
 //@   witness idx#0 "def"
 
 //@ func (*ti/eval.In).parseArray
